@@ -165,6 +165,11 @@ func gramCase(c *explore.Ctx, s *explore.SubStats, side *gramSide, g *refgrammar
 				return
 			}
 		}
+		if len(toks) == 0 {
+			// lexically invalid (no token sequence to explain the acceptance with)
+			bad("accept/lexically-invalid-text", fmt.Sprintf("the text is no sequence of tokens of the lexical grammar but the %s parser accepts it", side.name), "reject", proj)
+			return
+		}
 		bad("accept/"+acceptClass(side, g, toks, in.Text, proj), fmt.Sprintf("the grammar does not derive this %s document (viable prefix: %d tokens) but the parser accepts it", side.name, want.Furthest), "reject", proj)
 	case want.OK:
 		s.Outcome("accept")
